@@ -1,14 +1,15 @@
 (* C01 — shape and element count never disagree on any result of any operation chain.
    PROVED: new / create / reshape accept exactly the fitting element lists; every call of the FULL program language
    (ProgFull.v: the constructors, the reshaping family and axis permutations of Prog.v plus broadcasting, flip / roll /
-   rot90, delete / insert / repeat / trim, append / concatenate / the five stacks, the six splits, sort / unique, any
-   lane operation through apply_along_axis, reductions and scans with arbitrary bodies, elementwise map / two-operand
-   lifting with arbitrary scalar functions, tril / triu / diag / diagflat / eye / tri / identity / full) returns only
+   rot90, delete / insert / repeat / trim, append / concatenate / the five stacks, the six splits, sort / unique (flat and
+   along an axis), any lane operation through apply_along_axis, reductions and scans with arbitrary bodies, elementwise
+   map / two-operand lifting with arbitrary scalar functions, tril / triu / diag / diagflat / eye / tri / identity /
+   full, the products vdot / matmul / outer / inner / dot for any addition and multiplication, broadcast_arrays) returns only
    well-formed arrays, single results and list members alike; hence every array reachable by any finite program over
    these operations from well-formed inputs is well formed (C01_full_run_wf); metadata agree with the shape.
    NOT IN THE LANGUAGE (their results are covered by the universal monitor of the correspondence run only): the
    heterogeneous results (pairs from broadcast / zip, index arrays from argsort / argmax / count_nonzero, bit and
-   string operations, linear algebra), whose well-formedness lemmas exist separately where stated. *)
+   string operations, solve / det / qr), whose well-formedness lemmas exist separately where stated. *)
 From ArrRs Require Import Index Axis Reshape_proofs Prog Prog_proofs Sort ProgFull ProgFull_proofs.
 
 (* asking for an array whose element list does not fit the requested shape is refused with an error,
